@@ -128,6 +128,12 @@ func solveOne(dir string, idx int, script string, strs bool, quickS, fullS int, 
 	first := solvers[0]
 	if strs {
 		first = solvers[2] // cvc5 decides string goals
+		if quickS < 12 {
+			quickS = 12
+		}
+		if fullS < 30 {
+			fullS = 30
+		}
 	}
 	r := runSolver(context.Background(), first, dir, base, script, quickS, strs, getValues)
 	total := r.secs
